@@ -515,7 +515,8 @@ Section Traversal.
 
   Lemma set_arr_same_length a i v : 0 <= i < len a -> length (set_arr a i v) = length a.
   Proof.
-    intros H. unfold set_arr. destruct (i =? len a) eqn:E1; [lia|].
+    intros H. unfold set_arr. destruct (is_nil v && (len a <=? i)); [reflexivity|].
+    destruct (i =? len a) eqn:E1; [lia|].
     destruct (len a <? i) eqn:E2; [lia|]. apply upd_length.
   Qed.
 
